@@ -433,7 +433,8 @@ def records_case(ctx, case):
                 return hash(r)
             except TypeError:
                 return 'unhashable'
-        if eq and h(a) != h(b):
+        if eq and h(a) != h(b) and 'unhashable' not in (h(a), h(b)):
+            # (a record that cannot be hashed at all is outside the law)
             ctx.fail('records', 'R-hash', case, (h(a), h(b)))
         if make_record(ca, va) != a or h(make_record(ca, va)) != h(a):
             ctx.fail('records', 'R-copy-equal', case)
@@ -840,6 +841,10 @@ def _same_but_prints_differently(v):
         return tuple(_same_but_prints_differently(x) for x in v)
     if isinstance(v, dict):
         return dict(reversed(list(v.items())))
+    if isinstance(v, bytearray):
+        return bytes(v)
+    if isinstance(v, bytes):
+        return bytearray(v)
     return v
 
 
@@ -851,6 +856,9 @@ def t_laws(ctx, n):
                     # unhashable field values (the library's own records
                     # hold lists: properties, icons)
                     st.lists(num, max_size=2),
+                    # pixel buffers: bytearray(b'ab') == b'ab'
+                    st.binary(max_size=3),
+                    st.binary(max_size=3).map(bytearray),
                     st.dictionaries(st.sampled_from(['k', 'j']), num,
                                     max_size=2))
     rec = st.fixed_dictionaries({
